@@ -297,7 +297,14 @@ def _shadow(name, orig, mode, args, kwargs):
     if not slots and not drop and not syn:
         return orig(*args, **kwargs)
     kinds = tuple(s[2] for s in slots)
-    key = (name, kinds, drop)
+    # objects that differ in a scalar option (storage order, frame, representation, adaptive flag ...) are sampled separately
+    state = ()
+    if mode == "method":
+        try:
+            state = tuple(sorted((k_, v_) for k_, v_ in vars(args[0]).items() if type(v_) in (bool, str)))[:6]
+        except Exception:
+            state = ()
+    key = (name, kinds, drop, state)
     n = SEEN.get(key, 0)
     if n >= PER_KEY:
         return orig(*args, **kwargs)
